@@ -21,7 +21,7 @@ Boundaryish(l) == IsStart(l) \/ l.c = "commit"
 HunkC(c) == IF c = "minus3" THEN "minus" ELSE IF c = "plus3" THEN "plus" ELSE c
 SecTemplateLen(kd) ==
   CASE kd = "mod" -> 3 [] kd = "add" -> 4 [] kd = "addempty" -> 2 [] kd = "del" -> 4 [] kd = "rename" -> 3
-    [] kd = "renmod" -> 6 [] kd = "copy" -> 3 [] kd = "modeonly" -> 2 [] kd = "modemod" -> 5 [] kd = "bin" -> 2
+    [] kd = "renmod" -> 6 [] kd = "copy" -> 3 [] kd = "modeonly" -> 2 [] kd = "modemod" -> 5 [] kd = "bin" -> 2 [] kd = "modebin" -> 4 [] kd = "renmode" -> 5
     [] kd = "binadd" -> 3 [] kd = "cc" -> 3 [] kd = "subshort" -> 6 [] OTHER -> 0
 SecHasHunks(kd) == kd \in {"mod", "add", "del", "renmod", "modemod", "cc"}
 
@@ -34,6 +34,8 @@ WantHeader(l) ==
     [] kd \in {"add", "addempty"}  -> <<0, f, "added", 0, FALSE>>
     [] kd = "del"                  -> <<f, 0, "removed", 0, FALSE>>
     [] kd \in {"rename", "renmod"} -> <<f, g, "renamed", 0, FALSE>>
+    [] kd = "renmode"              -> <<f, g, "renamed", 2, FALSE>>
+    [] kd = "modebin"              -> <<f, f, "modified", 2, TRUE>>
     [] kd = "copy"                 -> <<f, g, "copied", 0, FALSE>>
     [] kd \in {"modeonly", "modemod"} -> <<f, f, "modified", 2, FALSE>>
     [] kd = "bin"                  -> <<f, f, "modified", 0, TRUE>>
